@@ -24,6 +24,7 @@ import (
 	"time"
 
 	"github.com/apache/skywalking-banyandb/api/common"
+	"github.com/apache/skywalking-banyandb/banyand/internal/storage"
 	"github.com/apache/skywalking-banyandb/banyand/protector"
 	"github.com/apache/skywalking-banyandb/pkg/convert"
 	"github.com/apache/skywalking-banyandb/pkg/fs"
@@ -116,6 +117,33 @@ func diskParts(root string) map[uint64]bool {
 		}
 	}
 	return out
+}
+
+// manifestParts returns the part ids named by the newest snapshot manifest on disk: what a restart will load.
+// (A table's background loops may still publish between the harness' last look at the snapshot and Close.)
+func manifestParts(fileSystem fs.FileSystem, dir string) (map[uint64]bool, bool) {
+	var newest uint64
+	found := false
+	ents, _ := os.ReadDir(dir)
+	for _, e := range ents {
+		if id, err := parseSnapshot(e.Name()); err == nil && (!found || id > newest) {
+			newest, found = id, true
+		}
+	}
+	if !found {
+		return nil, false
+	}
+	names, err := storage.ReadSnapshotPartNames(fileSystem, filepath.Join(dir, snapshotName(newest)))
+	if err != nil {
+		return nil, false
+	}
+	keep := map[uint64]bool{}
+	for _, n := range names {
+		if id, err := parseEpoch(n); err == nil {
+			keep[id] = true
+		}
+	}
+	return keep, true
 }
 
 // settledDisk polls (bounded) until the part directories equal keep: the stream engine removes the files of a
@@ -627,6 +655,9 @@ func streamLive(s *verifh.Sink, base string, fileSystem fs.FileSystem, uid *int6
 			snp.decRef()
 		}
 		tst.Close()
+		if mk, ok := manifestParts(fileSystem, dir); ok {
+			keep = mk
+		}
 		if firstBad.Load() == nil && stable >= 20 {
 			left, missing := settledDisk(dir, keep)
 			if len(missing) > 0 {
